@@ -36,7 +36,10 @@ def body(case, env):
     if case['extras']:
         fsgen.extras_apply(env['plain'], img, case['extras'], env['blobs'], cfg['bs'], extent_fs=cfg['fstype'] == 'ext4')
         if 'quota' in cfg['features']: env['plain'].fsck(img, '-fy')
-        if env['plain'].fsck(img, '-fn').rc != 0: return (None, fp, False, None, classes + ['skip:base-not-clean-after-extras'])
+        if env['plain'].fsck(img, '-fn').rc != 0:
+            # e2fsck itself may be what is wrong: the population is only discarded when the independent checker also finds it inconsistent
+            if tool.ref_clean(img)[0] != 'ok': return (None, fp, False, None, classes + ['skip:base-not-clean-after-extras'])
+            classes.append('e2fsck-complains-about-a-population-the-independent-checker-finds-clean')
         classes.append('extras:%d' % len(case['extras']))
         try: d0, err0 = tool.tree_digest(img)
         except Exception as e: return (None, fp, False, None, classes + ['skip:reader-error-on-base'])
